@@ -281,6 +281,7 @@ def main():
            "bounds": {}, "outcomes": {}, "steps": []}
     assumptions = []
     violations = []
+    harness_errors = []
     rules = []
     for r in results:
         res = r["res"]
@@ -308,6 +309,8 @@ def main():
                              "violations": res.get("n_violations"), "wall_s": round(res.get("wall_s", 0), 1)})
         for v in res.get("violations") or []:
             violations.append((r, v))
+        for h in res.get("harness_errors") or []:
+            harness_errors.append((r, h))
     cov["rule"] = " ;; ".join(rules)
     if not cov["samples"]:
         cov["samples"] = []
@@ -403,6 +406,10 @@ def main():
     if build_fail:
         for r in build_fail:
             print("run.py: INFRASTRUCTURE ERROR in step %s (rc=%s), log tail:\n%s" % (r["name"], r["rc"], tail(r["log"], 60)))
+        sys.exit(2)
+    if harness_errors:
+        for r, h in harness_errors:
+            print("run.py: HARNESS ERROR in step %s: %s" % (r["name"], h[:2000]))
         sys.exit(2)
     if unconfirmed:
         print("run.py: %d violation(s) did not reproduce from their replay file: treated as harness non-determinism" % unconfirmed)
